@@ -4,7 +4,7 @@ use super::alloc;
 use super::rng::{hash_str, Rng};
 use serde::{Deserialize, Serialize};
 use serde_json::{json, Value};
-use std::collections::{BTreeMap, HashSet};
+use std::collections::{BTreeMap, BTreeSet, HashSet};
 use std::io::Write;
 use std::os::fd::AsRawFd;
 use std::path::{Path, PathBuf};
@@ -168,6 +168,9 @@ pub trait Check {
     fn case_label(&self, _tier: Tier, _idx: u64) -> String { String::new() }
     /// case index ranges (from, count) to repeat under the Miri interpreter (None = no sanitizer stage in this tier)
     fn miri_plan(&self, _tier: Tier) -> Option<Vec<(u64, u64)>> { None }
+    /// (from, count) case ranges repeated under valgrind memcheck; `MemMode::Cli` runs the ranges natively with the
+    /// CLI subprocesses under memcheck instead
+    fn memcheck_plan(&self, _tier: Tier) -> Option<(MemMode, Vec<(u64, u64)>)> { None }
 }
 
 // ------------------------------------------------------------------------------------------------
@@ -178,6 +181,12 @@ pub struct Finding {
     pub property: String,
     pub sig: String,
     pub what: String,
+}
+
+#[derive(Debug, Clone, Copy, PartialEq, Eq)]
+pub enum MemMode {
+    Harness,
+    Cli,
 }
 
 pub fn verif_root() -> PathBuf { std::env::var("VERIF_ROOT").map(PathBuf::from).unwrap_or_else(|_| PathBuf::from("/verif")) }
@@ -526,6 +535,28 @@ pub fn supervisor_main(check: &mut dyn Check, tier: Tier, seed: u64) -> RunResul
             }
         }
     }
+    // sanitizer stage (valgrind memcheck) over a sub-range of the same cases, native code and real sockets
+    if let Some((mode, plan)) = check.memcheck_plan(tier) {
+        if std::env::var("VERIF_NO_MEMCHECK").is_err() {
+            let m = memcheck_stage(id, tier, seed, mode, &plan);
+            *merged.counters.entry("memcheck_cases".into()).or_default() += m.cases;
+            *merged.counters.entry("memcheck_evaluations".into()).or_default() += m.evaluations;
+            *merged.counters.entry("memcheck_shards".into()).or_default() += m.shards as u64;
+            *merged.counters.entry("memcheck_wall_s".into()).or_default() += m.wall_s as u64;
+            for u in &m.ub_reports {
+                let sig = format!("{id} memcheck {}", u.chars().take(140).collect::<String>());
+                *merged.sig_counts.entry(sig.clone()).or_default() += 1;
+                merged.violations.push(Violation { sig, idx: 0, detail: json!({"memcheck_report": u}) });
+            }
+            for s in &m.signatures {
+                *merged.sig_counts.entry(s.clone()).or_default() += 1;
+                merged.violations.push(Violation { sig: s.clone(), idx: 0, detail: json!({"seen_under": "memcheck"}) });
+            }
+            for i in m.inconclusive {
+                *merged.inconclusive.entry(format!("memcheck: {}", i.chars().take(160).collect::<String>())).or_default() += 1;
+            }
+        }
+    }
     let wall = t0.elapsed().as_secs_f64();
     finish_run(check, tier, seed, merged, distinct.len() as u64, budget_cut, wall, total)
 }
@@ -821,6 +852,135 @@ pub fn miri_stage(id: &str, tier: Tier, seed: u64, plan: &[(u64, u64)]) -> MiriO
     }
     out.wall_s = t0.elapsed().as_secs_f64();
     out
+}
+
+/// The valgrind options shared by the harness and the CLI wrapping: a report makes the process exit 97.
+pub const MEMCHECK_ARGS: [&str; 5] = ["-q", "--error-exitcode=97", "--leak-check=no", "--num-callers=12", "--max-stackframe=8000000"];
+
+/// Repeat case ranges under valgrind memcheck (the release binary itself, or its CLI subprocesses), up to 16 at a time.
+pub fn memcheck_stage(id: &str, tier: Tier, seed: u64, mode: MemMode, plan: &[(u64, u64)]) -> MiriOutcome {
+    let t0 = Instant::now();
+    let mut out = MiriOutcome { ran: true, shards: plan.len(), ..Default::default() };
+    let exe = match std::env::current_exe() {
+        Ok(e) => e,
+        Err(e) => {
+            out.inconclusive.push(format!("current_exe: {e}"));
+            return out;
+        }
+    };
+    if Command::new("valgrind").arg("--version").stdin(Stdio::null()).stdout(Stdio::null()).stderr(Stdio::null()).status().map(|s| !s.success()).unwrap_or(true) {
+        out.inconclusive.push("valgrind not runnable".into());
+        return out;
+    }
+    let logdir = verif_root().join(".work").join(format!("memcheck-{id}-{}", std::process::id()));
+    let _ = std::fs::create_dir_all(&logdir);
+    let mut pending: Vec<(u64, u64)> = plan.to_vec();
+    pending.reverse();
+    let mut running: Vec<((u64, u64), Child, Instant)> = Vec::new();
+    let limit = Duration::from_secs(std::env::var("VERIF_MEMCHECK_SHARD_S").ok().and_then(|s| s.parse().ok()).unwrap_or(900));
+    while !pending.is_empty() || !running.is_empty() {
+        while running.len() < 16 && !pending.is_empty() {
+            let (from, count) = pending.pop().unwrap();
+            let log = logdir.join(format!("vg-{from}.%p.log"));
+            let mut cmd = match mode {
+                MemMode::Harness => {
+                    let mut c = Command::new("valgrind");
+                    c.args(MEMCHECK_ARGS).arg(format!("--log-file={}", log.display())).arg(&exe).env("VERIF_UNDER_MEMCHECK", "1");
+                    c
+                }
+                MemMode::Cli => {
+                    let mut c = Command::new(&exe);
+                    c.env("VERIF_CLI_WRAP", "valgrind").env("VERIF_CLI_WRAP_LOG", log.display().to_string());
+                    c
+                }
+            };
+            cmd.args(["miri-batch", id, "--tier", tier.name(), "--seed", &seed.to_string(), "--from", &from.to_string(), "--count", &count.to_string()])
+                .env_remove("RUST_BACKTRACE")
+                .env_remove("RUST_LIB_BACKTRACE")
+                .stdin(Stdio::null())
+                .stdout(Stdio::piped())
+                .stderr(Stdio::piped());
+            match cmd.spawn() {
+                Ok(c) => running.push(((from, count), c, Instant::now())),
+                Err(e) => out.inconclusive.push(format!("spawn: {e}")),
+            }
+        }
+        let mut i = 0;
+        while i < running.len() {
+            let done = matches!(running[i].1.try_wait(), Ok(Some(_)));
+            let late = running[i].2.elapsed() > limit;
+            if done || late {
+                let ((from, count), mut child, _) = running.remove(i);
+                if late && !done {
+                    let _ = child.kill();
+                    out.inconclusive.push(format!("memcheck shard {from}+{count} cut after {} s", limit.as_secs()));
+                    let _ = child.wait();
+                    continue;
+                }
+                if let Ok(o) = child.wait_with_output() {
+                    let so = String::from_utf8_lossy(&o.stdout).to_string();
+                    let se = String::from_utf8_lossy(&o.stderr).to_string();
+                    if let Some(l) = so.lines().find(|l| l.starts_with("BATCH-SUMMARY ")) {
+                        if let Ok(v) = serde_json::from_str::<Value>(&l["BATCH-SUMMARY ".len() ..]) {
+                            out.cases += count;
+                            out.evaluations += v["evaluations"].as_u64().unwrap_or(0);
+                            for s in v["signatures"].as_array().cloned().unwrap_or_default() {
+                                if let Some(s) = s.as_str() {
+                                    if !out.signatures.contains(&s.to_string()) {
+                                        out.signatures.push(s.to_string());
+                                    }
+                                }
+                            }
+                        }
+                    } else if o.status.code() != Some(97) {
+                        out.inconclusive.push(format!("memcheck shard {from}+{count}: no summary (exit {:?}): {}", o.status.code(), se.lines().rev().take(2).collect::<Vec<_>>().join(" | ")));
+                    }
+                }
+            } else {
+                i += 1;
+            }
+        }
+        std::thread::sleep(Duration::from_millis(50));
+    }
+    // every report block in every log: deduplicated by kind + first frame inside the repository or the harness
+    let mut seen: BTreeSet<String> = BTreeSet::new();
+    if let Ok(rd) = std::fs::read_dir(&logdir) {
+        for e in rd.flatten() {
+            let text = std::fs::read_to_string(e.path()).unwrap_or_default();
+            let lines: Vec<&str> = text.lines().map(|l| l.trim_start_matches(|c: char| c == '=' || c.is_ascii_digit()).trim()).collect();
+            for (i, l) in lines.iter().enumerate() {
+                let is_head = ["Invalid read", "Invalid write", "Invalid free", "Conditional jump", "Use of uninitialised", "Syscall param", "Mismatched free", "Source and destination overlap", "Argument"].iter().any(|k| l.starts_with(k));
+                if !is_head {
+                    continue;
+                }
+                let frame = lines[i + 1 ..].iter().take(14).find(|f| f.contains("gamedig") || f.contains("gdverif")).or_else(|| lines.get(i + 1)).copied().unwrap_or("");
+                let frame = frame.split(" (").next().unwrap_or(frame).split(": ").last().unwrap_or(frame);
+                let head: String = l.chars().map(|c| if c.is_ascii_digit() { 'N' } else { c }).collect();
+                seen.insert(format!("{head} @ {frame}"));
+            }
+        }
+    }
+    out.ub_reports = seen.into_iter().collect();
+    if out.ub_reports.is_empty() {
+        let _ = std::fs::remove_dir_all(&logdir);
+    }
+    out.wall_s = t0.elapsed().as_secs_f64();
+    out
+}
+
+/// The command that runs a binary under test: plain, or under memcheck when the memcheck stage asks for it.
+pub fn wrapped_command(bin: &Path) -> Command {
+    if std::env::var("VERIF_CLI_WRAP").as_deref() == Ok("valgrind") {
+        let mut c = Command::new("valgrind");
+        c.args(MEMCHECK_ARGS);
+        if let Ok(l) = std::env::var("VERIF_CLI_WRAP_LOG") {
+            c.arg(format!("--log-file={l}"));
+        }
+        c.arg(bin);
+        c
+    } else {
+        Command::new(bin)
+    }
 }
 
 /// Run one case in-process and print what it reports (used by replay and by the hang re-check).
